@@ -208,8 +208,8 @@ class CTransitionTableModel(CStateMachineModel):
                 length = len(tableline[self.ACTION])
                 if self.maxlenACTION < length:
                     self.maxlenACTION = length
-                if not ((tableline[self.ACTION] + tableline[self.EVENT]) in self.actionsignatures):
-                    self.actionsignatures[tableline[self.ACTION] + tableline[self.EVENT]] = (tableline[self.ACTION], tableline[self.EVENT])  #, tableline[self.START_STATE],tableline[self.NEXT_STATE]))
+                if not ((tableline[self.ACTION], tableline[self.EVENT]) in self.actionsignatures):
+                    self.actionsignatures[(tableline[self.ACTION], tableline[self.EVENT])] = (tableline[self.ACTION], tableline[self.EVENT])  #, tableline[self.START_STATE],tableline[self.NEXT_STATE]))
             if tableline[self.GUARD] != "" and tableline[self.GUARD].lower() != "none":
                 tguard[tableline[self.GUARD]] = 0
                 length = len(tableline[self.GUARD])
